@@ -442,17 +442,17 @@ def screen_transition(objs, R, C, pre, name, args, vi, expected, col):
 # ("changes exactly the cells ... its documentation describes and leaves every other cell untouched") the whole state
 # (grid, cursor, saved cursor, scroll region) is what it was: Screen!RejectedS.
 #   (encoding, encoding_errors, argument, kind): kind 'bytes' -> TypeError documented, 'decode' -> UnicodeDecodeError
-# NOT included, because the unchanged tree itself mutates the grid before raising (reported to the maintainers of the
-# harness, see DESIGN / the builder's report): an argument that decodes to *no* character - empty str / empty bytes on
-# any screen, or an incomplete multi-byte character such as b'\xe2' on a utf-8 screen or b'\x82' on a shift_jis screen
-# (any error policy) - makes insert(ch) and insert_abs(r, c, ch) shift the row right and only then raise IndexError
-# from put_abs (''[0]); the incomplete bytes also stay in the screen's incremental decoder and are prepended to the
-# next bytes argument.  put / put_abs / fill / fill_region raise the same IndexError before touching a cell.
+# kind 'empty': an empty character ('' on any screen, b'' on a screen with an encoding) -> IndexError, state unchanged.
+# (insert / insert_abs used to shift the row and only then fail in put_abs: repaired in /repo, see known_findings.json.)
+# NOT included: an incomplete multi-byte character (b'\xe2' on a utf-8 screen): it raises the same IndexError with the
+# grid unchanged, but the bytes stay in the screen's incremental decoder and are prepended to the next bytes argument -
+# the screen API takes one character per call, what a fraction of one means is not documented.
 REJECTS = [(None, 'replace', b'x', 'bytes'), (None, 'strict', b'\xe9', 'bytes'), (None, 'replace', b' ', 'bytes'),
            ('ascii', 'strict', b'\xc9', 'decode'), ('utf-8', 'strict', b'\xff', 'decode'), ('utf-8', 'strict', b'\xe2\x28', 'decode'),
            ('shift_jis', 'strict', b'\xfd\xfd', 'decode'), ('utf-16-le', 'strict', b'\x00\xd8\x00\x00', 'decode'),
-           ('ascii', 'strict', b'\x80', 'decode')]
-REJ_EXC = {'bytes': 'TypeError', 'decode': 'UnicodeDecodeError'}
+           ('ascii', 'strict', b'\x80', 'decode'),
+           (None, 'replace', '', 'empty'), ('utf-8', 'replace', b'', 'empty'), ('utf-8', 'strict', '', 'empty'), ('latin-1', 'replace', b'', 'empty')]
+REJ_EXC = {'bytes': 'TypeError', 'decode': 'UnicodeDecodeError', 'empty': 'IndexError'}
 
 
 def screen_rejected(objs, R, C, pre, name, args, ri, col):
@@ -851,7 +851,10 @@ def rejected_steps(rng, R, C, enc, coord):
     a = rng.choice(sorted(CHAR_OPS))
     args = {'PutAbs': 2, 'InsertAbs': 2, 'FillRegion': 4}.get(a, 0)
     args = [coord(R) if i % 2 == 0 else coord(C) for i in range(args)]
-    steps = [('op', a, args, arg_json(rng.choice(REJ_BYTES[enc])), 'bytes' if enc is None else 'decode')]
+    if rng.random() < 0.3:
+        steps = [('op', a, args, arg_json('' if (enc is None or rng.random() < 0.5) else b''), 'empty')]
+    else:
+        steps = [('op', a, args, arg_json(rng.choice(REJ_BYTES[enc])), 'bytes' if enc is None else 'decode')]
     big = R * C > 500
     accs = [('acc', 'get', []), ('acc', 'get_abs', [coord(R), coord(C)]),
             ('acc', 'get_region', [coord(R), coord(C), coord(R), coord(C)] if big else [1, 1, R, C]),
@@ -1247,11 +1250,11 @@ def run_c19(ctx):
     rej_tr = {k[9:]: v for k, v in total.count.items() if k.startswith('rejected:')}
     if not total.nfail:
         for a in sorted(CHAR_OPS):
-            for kind in ('bytes', 'decode'):
+            for kind in ('bytes', 'decode', 'empty'):
                 if rej_tr.get('%s:%s' % (METHOD[a], kind), 0) == 0:
                     raise tlc.TLCError('no rejected (%s) spelling of %s was exercised on the dumped graphs' % (kind, METHOD[a]))
     ctx.note('rejected operations on the graphs: %d character-operation transitions repeated with an argument the screen refuses '
-             '(bytes on encoding=None -> TypeError, undecodable bytes under strict -> UnicodeDecodeError; %s), state compared with '
+             '(bytes on encoding=None -> TypeError, undecodable bytes under strict -> UnicodeDecodeError, an empty character -> IndexError; %s), state compared with '
              'the pre-state%s' % (total.count['rejected'], ', '.join('%s x%d' % kv for kv in sorted(rej_tr.items())),
                                   '; %d not refused by the codec (nothing to compare)' % total.count['not_rejected']
                                   if total.count['not_rejected'] else ''))
@@ -1309,7 +1312,7 @@ def run_c19(ctx):
                         j += 1
     if not tstats.get('fails'):
         for a in sorted(CHAR_OPS):
-            for kind in ('bytes', 'decode'):
+            for kind in ('bytes', 'decode', 'empty'):
                 if rej_ev['%s:%s' % (METHOD[a], kind)] == 0:
                     raise tlc.TLCError('no rejected (%s) %s in the random operation sequences' % (kind, METHOD[a]))
     ctx.note('rejected operations in those sequences: %d operations refused by the screen (%s), each followed by reads through the '
